@@ -97,8 +97,18 @@ def run(ctx):
   # ---- C14.entry
   fb = ctx.func('config.parse_config_files_and_bindings')
   g3, facts3 = std_facts(prog, fb)
-  fl = [n for n in g3.live_nodes() if n.kind == 'for' and u(n.ast.iter) == fb.params[0]]
+  P0 = fb.params[0]
+  forms = {P0, '[] if %s is None else %s' % (P0, P0), '%s or []' % P0, '%s or ()' % P0, '%s if %s is not None else []' % (P0, P0),
+           '() if %s is None else %s' % (P0, P0), '%s if %s else []' % (P0, P0)}
+  fl = [n for n in g3.live_nodes() if n.kind == 'for' and u(n.ast.iter) in forms]
   fcalls = [n for n in g3.live_nodes() if any(prog.resolve_call(fb, c) == pf.qual for c in calls_of_node(n))]
+  if not fl:
+    # one call per file inside a comprehension over the files: the statement holding it plays the role of the loop
+    for n in fcalls:
+      for comp in [x for x in ast.walk(n.ast) if isinstance(x, (ast.ListComp, ast.GeneratorExp))] if n.ast is not None else []:
+        if len(comp.generators) == 1 and u(comp.generators[0].iter) in forms and not comp.generators[0].ifs \
+            and any(isinstance(c, ast.Call) and prog.resolve_call(fb, c) == pf.qual for c in ast.walk(comp.elt)):
+          fl.append(n)
   bcalls = [n for n in g3.live_nodes() if any(prog.resolve_call(fb, c) == pc.qual for c in calls_of_node(n))]
   fins = [n for n in g3.live_nodes() if any(prog.resolve_call(fb, c) == 'config.finalize' for c in calls_of_node(n))]
   ok = bool(fl) and bool(fcalls) and bool(bcalls) and bool(fins)
